@@ -55,13 +55,13 @@ theorem never_fabricates_success (c : Cfg) (es : List Ev) (s : State) (hrun : ru
     and `b` (returned payload is that response) holds -/
 theorem ok_result_follows_ok_rpc (c : Cfg) (pre : List Ev) (b : Bool) (s : State)
     (hrun : run (init c) (pre ++ [.result .ok b]) = some s) :
-    b = true ∧ ∃ p st rr sr rt px a pre', pre = pre' ++ [.send p st rr sr rt px a .ok] := by
+    b = true ∧ ∃ p st rr sr rt px a f pre', pre = pre' ++ [.send p st rr sr rt px a .ok f] := by
   have h := never_fabricates_success c _ s hrun
   -- walk the oracle along `pre`
   have key : ∀ (pre : List Ev) (prev : Option Ev) (last : Option Resp),
       genuineFrom prev last (pre ++ [.result .ok b]) = true →
       b = true ∧ ((pre = [] ∧ prevIsOkSend prev = true) ∨
-        ∃ p st rr sr rt px a pre', pre = pre' ++ [.send p st rr sr rt px a .ok]) := by
+        ∃ p st rr sr rt px a f pre', pre = pre' ++ [.send p st rr sr rt px a .ok f]) := by
     intro pre
     induction pre with
     | nil =>
@@ -72,7 +72,7 @@ theorem ok_result_follows_ok_rpc (c : Cfg) (pre : List Ev) (b : Bool) (s : State
       | none => simp at hg
       | some pe =>
         cases pe with
-        | send p1 p2 p3 p4 p5 p6 p7 r => cases r <;> simp_all [prevIsOkSend]
+        | send p1 p2 p3 p4 p5 p6 p7 r f => cases r <;> simp_all [prevIsOkSend]
         | bump q a => simp at hg
         | backoff k ms => simp at hg
         | result k b => simp at hg
@@ -81,21 +81,28 @@ theorem ok_result_follows_ok_rpc (c : Cfg) (pre : List Ev) (b : Bool) (s : State
       simp only [List.cons_append, genuineFrom, Bool.and_eq_true] at hg
       obtain ⟨hb, hrest⟩ := ih _ _ hg.2
       refine ⟨hb, Or.inr ?_⟩
-      rcases hrest with ⟨ht, hp⟩ | ⟨p, st, rr, sr, rt, px, a, pre', ht⟩
+      rcases hrest with ⟨ht, hp⟩ | ⟨p, st, rr, sr, rt, px, a, f, pre', ht⟩
       · subst ht
         cases e with
-        | send p1 p2 p3 p4 p5 p6 p7 r =>
+        | send p1 p2 p3 p4 p5 p6 p7 r f =>
           cases r <;> simp [prevIsOkSend] at hp
-          exact ⟨p1, p2, p3, p4, p5, p6, p7, [], rfl⟩
+          exact ⟨p1, p2, p3, p4, p5, p6, p7, f, [], rfl⟩
         | bump q a => simp [prevIsOkSend] at hp
         | backoff k ms => simp [prevIsOkSend] at hp
         | result k b => simp [prevIsOkSend] at hp
-      · exact ⟨p, st, rr, sr, rt, px, a, e :: pre', by rw [ht]; rfl⟩
+      · exact ⟨p, st, rr, sr, rt, px, a, f, e :: pre', by rw [ht]; rfl⟩
   obtain ⟨hb, hrest⟩ := key pre none none h
   refine ⟨hb, ?_⟩
   rcases hrest with ⟨_, hp⟩ | hx
   · simp [prevIsOkSend] at hp
   · exact hx
+
+/-- every retry path switches peer or consumes back-off budget: after an answer whose handler owes a back-off (RPC error,
+    NotLeader without leader, MaxTimestampNotSynced, DiskFull, …: before ANY further RPC; ServerIsBusy: before the next RPC
+    to the SAME store) no such RPC follows before a back-off of that config (`propBackoffDiscipline`) -/
+theorem backoff_discipline (c : Cfg) (es : List Ev) (s : State) (hrun : run (init c) es = some s) :
+    propBackoffDiscipline c.shortRead es = true :=
+  discipline_run c.shortRead es (init c) s rfl hrun
 
 /-- no RPC of a write command is flagged replica read or stale read -/
 theorem write_never_replica_or_stale (c : Cfg) (es : List Ev) (s : State) (hrun : run (init c) es = some s) :
@@ -140,31 +147,36 @@ theorem error_only_after_budget (c : Cfg) (es : List Ev) (s : State) (b : Bool) 
 
 /-! ## non-vacuity: accepted runs exist for every shape the hypotheses mention -/
 
-def cfgRead : Cfg := { n := 3, maxSleep := 2000, isWrite := false, tsInvalid := false, hints := 1 }
-def cfgBadTs : Cfg := { n := 3, maxSleep := 2000, isWrite := false, tsInvalid := true, hints := 0 }
-def cfgWrite : Cfg := { n := 3, maxSleep := 100, isWrite := true, tsInvalid := false, hints := 0 }
+def cfgRead : Cfg := { n := 3, maxSleep := 2000, isWrite := false, tsInvalid := false, hints := 1, shortRead := false }
+def cfgBadTs : Cfg := { n := 3, maxSleep := 2000, isWrite := false, tsInvalid := true, hints := 0, shortRead := false }
+def cfgWrite : Cfg := { n := 3, maxSleep := 100, isWrite := true, tsInvalid := false, hints := 0, shortRead := false }
 
 /-- a run with a retry, a leader hint, a back-off and a genuine ok result -/
 def demoRun : List Ev :=
-  [.send 1 1 false false false 0 1 (.nlhint 2), .send 2 2 false false true 0 1 .rpcerr, .backoff "tikvRPC" 60,
-   .send 2 2 false false true 0 2 .ok, .result .ok true]
+  [.send 1 1 false false false 0 1 (.nlhint 2) "nl2", .send 2 2 false false true 0 1 .rpcerr "rpcerr", .backoff "tikvRPC" 60,
+   .send 2 2 false false true 0 2 .ok "ok", .result .ok true]
 
 example : (run (init cfgRead) demoRun).isSome = true := by decide
 /-- ten RPCs exhaust replica 1, a leader hint naming it refills it once (`bump`), the eleventh RPC is legal, a second
     refill is not (the allowance `hints = 1` is used up) -/
 def demoHint : List Ev :=
-  [.send 1 1 false false false 0 0 .regionerr] ++ List.replicate 8 (.send 1 1 false false true 0 0 .regionerr) ++
-  [.send 1 1 false false true 0 10 (.nlhint 1), .bump 1 9, .send 1 1 false false true 0 10 (.nlhint 1)]
+  [.send 1 1 false false false 0 0 .regionerr "stale"] ++ List.replicate 8 (.send 1 1 false false true 0 0 .regionerr "stale") ++
+  [.send 1 1 false false true 0 10 (.nlhint 1) "nl1", .bump 1 9, .send 1 1 false false true 0 10 (.nlhint 1) "nl1"]
 example : (run (init cfgRead) (demoHint ++ [.result .regionStore true])).isSome = true := by decide
 example : run (init cfgRead) (demoHint ++ [.bump 1 9]) = none := by decide
-example : run (init cfgRead) (demoHint.take 10 ++ [.send 1 1 false false true 0 0 .ok]) = none := by decide
+example : run (init cfgRead) (demoHint.take 10 ++ [.send 1 1 false false true 0 0 .ok "ok"]) = none := by decide
 example : (run (init cfgBadTs) [.result .errTs false]).isSome = true := by decide
-example : (run (init cfgWrite) [.send 1 1 false false false 0 1 .rpcerr, .backoff "tikvRPC" 100, .result .errBudget false]).isSome = true := by
+example : (run (init cfgWrite) [.send 1 1 false false false 0 1 .rpcerr "rpcerr", .backoff "tikvRPC" 100, .result .errBudget false]).isSome = true := by
   decide
 -- and the model does reject what the property forbids
-example : run (init cfgWrite) [.send 1 1 true false false 0 1 .ok] = none := by decide
-example : run (init cfgRead) [.send 1 1 false false false 0 1 .rpcerr, .send 1 1 false false false 0 2 .ok] = none := by decide
-example : run (init cfgBadTs) [.send 1 1 false false false 0 1 .ok] = none := by decide
-example : run (init cfgRead) [.send 1 1 false false false 0 1 .rpcerr, .result .ok true] = none := by decide
+example : run (init cfgWrite) [.send 1 1 true false false 0 1 .ok "ok"] = none := by decide
+example : run (init cfgRead) [.send 1 1 false false false 0 1 .rpcerr "rpcerr", .send 1 1 false false false 0 2 .ok "ok"] = none := by decide
+example : run (init cfgBadTs) [.send 1 1 false false false 0 1 .ok "ok"] = none := by decide
+example : run (init cfgRead) [.send 1 1 false false false 0 1 .rpcerr "rpcerr", .result .ok true] = none := by decide
+-- a busy store is not re-sent to without a tikvServerBusy back-off; another store may be tried at once
+example : run (init cfgWrite) [.send 1 1 false false false 0 1 .regionerr "busydl", .send 1 1 false false true 0 2 .ok "ok"] = none := by decide
+example : (run (init cfgWrite) [.send 1 1 false false false 0 1 .regionerr "busydl", .send 2 2 false false true 0 1 .regionerr "stale",
+    .backoff "tikvServerBusy" 1500, .send 1 1 false false true 0 2 .ok "ok", .result .ok true]).isSome = true := by decide
+example : run (init cfgRead) [.send 1 1 false false false 0 1 .regionerr "maxts", .send 1 1 false false true 0 2 .ok "ok"] = none := by decide
 
 end CGV.Props.C10
